@@ -18,7 +18,7 @@ func init() {
 	register(&Rule{ID: "C06.R2", Prop: "C06", Floor: 8, Doc: "event tables are exhaustive and agree (type switches, decoders, emitted pairs)", Run: c06r2})
 	register(&Rule{ID: "C06.R3", Prop: "C06", Floor: 3, Doc: "apply and revert classify element diffs identically and pass them in corresponding positions", Run: c06r3})
 	register(&Rule{ID: "C06.R5", Prop: "C06", Floor: 2, Doc: "the wallet's relevance tests examine every output and every input of a transaction", Run: c06r5})
-	register(&Rule{ID: "C06.R6", Prop: "C06", Floor: 2, Doc: "a loop that removes the element at its current position from the list it walks does not move on to the next position without compensating (reference stores included)", Run: c06r6})
+	register(&Rule{ID: "C06.R6", Prop: "C06", Floor: 1, Doc: "a loop that removes the element at its current position from the list it walks does not move on to the next position without compensating (reference stores included)", Run: c06r6})
 	register(&Rule{ID: "C06.R4", Prop: "C06", Floor: 1, Doc: "payouts of one element to the wallet are tested independently (host and renter output of a v2 contract)", Run: c06r4})
 }
 
@@ -50,7 +50,9 @@ func walletSteps(c *Ctx) (apply, revert *ir.Func) {
 	if apply == nil || revert == nil {
 		ir.Fail("wallet apply/revert steps (methods taking chain.ApplyUpdate / chain.RevertUpdate) not found")
 	}
-	return
+	// with helpers (error wrappers, a shared classifier or relevance predicate) expanded
+	vs := c.P.Views("wallet", ir.ExpandOpt{Key: "all"})
+	return vs.Of(apply), vs.Of(revert)
 }
 
 func c06r1(c *Ctx) {
@@ -428,9 +430,23 @@ func walletDiffTable(f *ir.Func) diffTable {
 		}
 	}
 	g := f.Graph()
+	// the wallet's address: the Address parameter, or an Address-typed field of the receiver
+	isWalletAddr := func(e ast.Expr) bool {
+		if addr != nil && f.ObjOf(e) == addr {
+			return true
+		}
+		if sel, ok := ast.Unparen(e).(*ast.SelectorExpr); ok && addr == nil {
+			if fld := f.FieldOf(sel); fld != nil && ir.IsNamed(fld.Type(), ir.PkgPath("types"), "Address") {
+				if id, ok := ast.Unparen(sel.X).(*ast.Ident); ok && f.Decl != nil && f.Decl.Recv != nil && len(f.Decl.Recv.List) == 1 && len(f.Decl.Recv.List[0].Names) == 1 {
+					return f.ObjOf(id) == f.Info().Defs[f.Decl.Recv.List[0].Names[0]]
+				}
+			}
+		}
+		return false
+	}
 	for _, head := range g.Nodes {
 		rs, ok := head.AST.(*ast.RangeStmt)
-		if !ok || rs.Value == nil {
+		if !ok || (rs.Value == nil && rs.Key == nil) {
 			continue
 		}
 		// (the list may have been bound to a local first, as a classifying helper's parameter is)
@@ -439,7 +455,28 @@ func walletDiffTable(f *ir.Func) diffTable {
 			continue
 		}
 		t.found = true
-		d := f.ObjOf(rs.Value)
+		var d types.Object
+		if rs.Value != nil {
+			d = f.ObjOf(rs.Value)
+		} else {
+			// `for i := range diffs { d := &diffs[i] … }`
+			key := f.ObjOf(rs.Key)
+			for _, w := range f.WritesIn(rs.Body, false) {
+				if w.RHS == nil || w.Tok != token.DEFINE {
+					continue
+				}
+				r := ast.Unparen(w.RHS)
+				if u, ok := r.(*ast.UnaryExpr); ok && u.Op == token.AND {
+					r = ast.Unparen(u.X)
+				}
+				if ix, ok := r.(*ast.IndexExpr); ok && sameLvalue(f, ix.X, rs.X) && f.ObjOf(ix.Index) == key && key != nil {
+					d = f.ObjOf(w.LHS)
+				}
+			}
+		}
+		if d == nil {
+			continue
+		}
 		rootedAtD := func(e ast.Expr) bool { o, _ := f.RootObj(e); return o == d && d != nil }
 		// atoms: 0 Created, 1 Spent, 2 foreign address
 		atom := func(cond ast.Expr) (int, bool, bool) {
@@ -454,10 +491,10 @@ func walletDiffTable(f *ir.Func) diffTable {
 			}
 			if be, ok := cond.(*ast.BinaryExpr); ok && (be.Op == token.NEQ || be.Op == token.EQL) {
 				x, y := be.X, be.Y
-				if f.ObjOf(x) == addr && addr != nil {
+				if isWalletAddr(x) {
 					x, y = y, x
 				}
-				if f.ObjOf(y) == addr && addr != nil && rootedAtD(x) && ir.IsNamed(f.TypeOf(x), ir.PkgPath("types"), "Address") {
+				if isWalletAddr(y) && rootedAtD(x) && ir.IsNamed(f.TypeOf(x), ir.PkgPath("types"), "Address") {
 					return 2, be.Op == token.NEQ, true
 				}
 			}
@@ -576,9 +613,6 @@ func c06r3(c *Ctx) {
 	applyIdx := c.P.Method("wallet", "UpdateTx", "WalletApplyIndex")
 	revertIdx := c.P.Method("wallet", "UpdateTx", "WalletRevertIndex")
 	af, rf := walletSteps(c)
-	// with helpers (e.g. a shared "is this diff relevant" predicate) expanded
-	vs := c.P.Views("wallet", ir.ExpandOpt{Key: "all"})
-	af, rf = vs.Of(af), vs.Of(rf)
 	a, r := walletDiffTable(af), walletDiffTable(rf)
 	c.VisitGraph(af)
 	c.VisitGraph(rf)
